@@ -209,8 +209,9 @@ FALL, RET, BRK, CONT = "fall", "ret", "break", "continue"
 
 
 class Walker:
-    def __init__(self, func_node: ast.FunctionDef, max_paths: int = MAX_PATHS, loops_zero: bool = False, expand_self: bool = True):
+    def __init__(self, func_node: ast.FunctionDef, max_paths: int = MAX_PATHS, loops_zero: bool = False, expand_self: bool = True, track_stores: bool = False):
         self.expand_self = expand_self
+        self.track_stores = track_stores
         self.fn = func_node
         self.max_paths = max_paths
         self.loops_zero = loops_zero
@@ -278,6 +279,13 @@ class Walker:
         elif isinstance(target, ast.Subscript):
             self.ev(p, "store", node, subst(target, p.env), value)
             p.events[-1].raw = target
+            if self.track_stores and isinstance(target.value, ast.Name) and target.value.id in p.env:
+                # x[idx] = v  ==>  x := __store__(x, idx, v): later uses of x depend on v
+                old_v = p.env[target.value.id]
+                new_v = ast.Call(func=ast.Name(id="__store__", ctx=ast.Load()), args=[old_v, subst(target.slice, p.env), value], keywords=[])
+                if hasattr(old_v, "_def_id"):
+                    pass
+                p.env[target.value.id] = new_v
         else:
             raise AnalysisError(f"assignment target {dump(target)}")
 
@@ -473,9 +481,10 @@ def _load(t: ast.AST) -> ast.AST:
     return t2
 
 
-def paths(func_node: ast.FunctionDef, loops_zero: bool = False, expand_self: bool = True) -> List[Path]:
-    """expand_self=False: `self.attr` reads are left as written (assignments recorded as events only)"""
-    return Walker(func_node, loops_zero=loops_zero, expand_self=expand_self).run()
+def paths(func_node: ast.FunctionDef, loops_zero: bool = False, expand_self: bool = True, track_stores: bool = False) -> List[Path]:
+    """expand_self=False: `self.attr` reads are left as written (assignments recorded as events only);
+    track_stores=True: `x[i] = v` on a local makes later uses of x depend on v"""
+    return Walker(func_node, loops_zero=loops_zero, expand_self=expand_self, track_stores=track_stores).run()
 
 
 def returns(func_node: ast.FunctionDef) -> List[Path]:
